@@ -54,7 +54,8 @@ func (w *world) genTx(n *node) *genTx {
 	w.focus(n)
 	sm := n.ctl.FSM
 	h := sm.Height()
-	fee := uint64(10000)
+	// fees differ: the mempool orders by fee, so a newcomer can land in front of transactions already pooled
+	fee := uint64(10000) + []uint64{0, 1, 777, 10000, 90000}[t.Pick(4, 1, 1, 2, 1)]
 	mk := func(desc string, from *actor, tx lib.TransactionI, err lib.ErrorI) *genTx {
 		if err != nil || tx == nil {
 			c.Logf("tx build failed (%s): %v", desc, err)
@@ -121,6 +122,10 @@ func (w *world) genTx(n *node) *genTx {
 		from := w.pickActor(nil)
 		amt := w.amount(bal(from))
 		cid := []uint64{1, 2, 3}[t.Intn(3)]
+		if (c.Prop == "C20" || c.Prop == "C04") && t.Chance(1, 2) {
+			// the subsidy names a pool id, not necessarily a committee's reward pool
+			cid = []uint64{nestedId + fsm.EscrowPoolAddend, nestedId + fsm.HoldingPoolAddend, nestedId + fsm.LiquidityPoolAddend, lib.DAOPoolID, 0}[t.Intn(5)]
+		}
 		tx, err := fsm.NewSubsidyTx(from.key, amt, cid, nil, 1, 1, fee, h, "")
 		return mk(fmt.Sprintf("subsidy %s %d -> committee %d", from.name, amt, cid), from, tx, err)
 	case 7: // create order (root chain escrow)
